@@ -21,10 +21,10 @@ Section StepsB8.
   Lemma S_fini_start g a tr t r :
     In r (vb_own (bvs a t)) -> vb_limbo (bvs a t) = None -> vb_blk (bvs a t) = None -> vb_dead (bvs a t) = None ->
     vb_cur (bvs a t) = None -> vb_full (bvs a t) = None ->
-    vb_move (bvs a t) = Some (r, None) ->
+    vb_move (bvs a t) = Some (r, None) -> vb_arr (bvs a t) <> Some r ->
     JB c g a tr -> JB c g (aux_fini a t r (r_head (grec g r))) tr.
   Proof.
-    intros Hr Hl Hb Hd Hc Hf Hmk J.
+    intros Hr Hl Hb Hd Hc Hf Hmk Har J.
     assert (Hm : forall r0 ob, vb_move (bvs a t) = Some (r0, ob) -> r0 = r) by (intros r0 ob E; rewrite Hmk in E; inversion E; auto).
     assert (Hal : dead a r = false) by (eapply JB_alive; eauto; congruence).
     destruct J as [O1 K0 R0 W1]. pose proof K0 as [K1 K2 K3 K4 K5]. pose proof R0 as [R1 R2 R3 R4 R5 R6]. pose proof O1 as [_ _ _ _ O5].
@@ -73,7 +73,7 @@ Section StepsB8.
           destruct (proj2 R5 r' E) as (t' & K). exists t'. unfold fn. destruct (Nat.eqb_spec t' t) as [->|]; cbn; auto. congruence.
       + intros t' r'. unfold fn at 1 2. destruct (Nat.eqb_spec t' t) as [->|Nt]; cbn; [rewrite Hf; discriminate|].
         intros E. destruct (R6 t' r' E) as (Y1 & Y2). split; auto. rewrite fn_other; auto. eapply Hexcl; eauto.
-    - destruct W1 as [W1 W2 W3 W4 W5 W6 W7].
+    - destruct W1 as [W1 W2 W3 W4 W5 W6 W7 W8 W9].
       assert (Eec : forall r', r' <> r -> ec g (aux_fini a t r (r_head (grec g r))) r' = ec g a r').
       { intros r' N. apply ec_ext; cbn [aux_fini rch rw moved]; auto; rewrite fn_other by exact N; reflexivity. }
       assert (Hec0 : ec g a r = []).
@@ -87,7 +87,7 @@ Section StepsB8.
       + intros t' r'. cbn [aux_fini bvs moved rw]. intros Hm' Hc'.
         destruct (Nat.eq_dec t' t) as [->|Nt]; [rewrite fn_same in Hm'; cbn in Hm'; discriminate|]. rewrite fn_other in Hm', Hc' by exact Nt.
         assert (N : r' <> r) by (eapply Hexcl; eauto; eapply R3; eauto). rewrite !fn_other by exact N. apply (W6 t' r'); auto.
-      + intros Hoob. destruct (W7 Hoob) as [C1 C2 C3 C4 C5 C6]. constructor; cbn [aux_fini bvs wh tl rch].
+      + intros Hoob. destruct (W7 Hoob) as [C1 C2 C3 C4 C5 C6 C7]. constructor; cbn [aux_fini bvs wh tl rch].
         * exact C1.
         * intros p r' H. destruct (C2 p r' H) as (X1 & X2). split; auto.
           destruct (Nat.eq_dec r' r) as [->|N]; [rewrite Hec0 in X2; contradiction|]. rewrite Eec by exact N. exact X2.
@@ -97,6 +97,11 @@ Section StepsB8.
           unfold fn. destruct (Nat.eqb_spec t' t) as [->|]; cbn; auto.
         * intros t' r' nx H. unfold fn. destruct (Nat.eqb_spec r' r) as [->|]; [reflexivity|]. apply (C6 t' r' nx).
           revert H. unfold fn. destruct (Nat.eqb_spec t' t) as [->|]; cbn; auto.
+        * intros t' r' H. assert (H' : vb_arr (bvs a t') = Some r') by (revert H; unfold fn; destruct (Nat.eqb_spec t' t) as [->|]; cbn; auto).
+          destruct (C7 t' r' H') as (X1 & X2). split; [unfold fn; destruct (Nat.eqb_spec t' t) as [->|]; cbn; auto|].
+          assert (N : r' <> r). { destruct (Nat.eq_dec t' t) as [->|Nt]; [intros ->; contradiction|eapply Hexcl; eauto]. }
+          rewrite fn_other by exact N. exact X2.
+      + apply (JH_frame a _ tr tr); auto. intros t'. cbn [bvs aux_fini]. unfold fn. destruct (Nat.eqb_spec t' t) as [->|]; auto.
   Qed.
 
   Definition aux_fini_end (a : AuxB) (t r : nat) : AuxB :=
